@@ -24,7 +24,7 @@ pub fn check(c: &Case) -> CheckResult {
     Ok(pass)
 }
 
-fn strategy() -> impl Strategy<Value = Case> {
+pub fn strategy() -> impl Strategy<Value = Case> {
     any::<bool>().prop_flat_map(|storage| gb::hostile(storage).prop_map(move |buf| Case { buf, storage }))
 }
 
